@@ -13,6 +13,18 @@ def prop(pid, **kw):
     PROPS[pid] = kw
 
 
+prop("C01", level="exploration",
+     level_text="Generated data-model values x generated option sets are serialized by every JSON text API (dump, dump_pretty, operator<<, encode_json, encoder+dump(visitor)), "
+                "re-parsed and re-serialized under ASan+UBSan; judged by a strict structural comparer (not basic_json::operator==), byte equality of the second text, "
+                "agreement between APIs, an independent RFC 8259 recogniser and token-level equality of pretty vs compact and of wchar_t vs char output.",
+     level_note="Sampled values/options (boundary-biased), not exhaustive. The sign of a floating zero is not compared in JSON text (DESIGN §3). wchar_t layout may differ from char "
+                "layout under line_length_limit (code-unit counting) and is compared at token level.",
+     technique="runtime monitoring: in-process round-trip/canonical-form monitor with strict structural oracle + independent RFC 8259 recogniser, ASan/UBSan",
+     rule="value generator DESIGN §2.4 (no byte strings, no NaN/Inf, bignums out of native range) x random option sets over all layout/escaping options x json/ojson/wjson; "
+          "distinct = distinct typed description of the value; non-trivial = container with >=1 element or non-empty string",
+     assumptions=["independent RFC 8259 recogniser drivers/common/rfc8259.hpp", "strict structural compare drivers/common/jvalue.hpp"],
+     stages=[dict(name="roundtrip", driver="c01_roundtrip", flagset="asan", quick=250000, thorough=6000000)])
+
 prop("C16", level="exploration",
      level_text="Every generated (target, patch) pair and (source, target) pair is executed against the real apply_merge_patch/from_diff for json and ojson under ASan+UBSan and "
                 "judged by an RFC 7386 transcription over an independent value model; held means no mismatch on the pairs explored (counts in evidence).",
